@@ -15,8 +15,14 @@ trap cleanup EXIT
 cd "$WT"
 if ! git apply "$SRC/patch.diff"; then echo "$NAME: patch does not apply"; exit 2; fi
 PYTHONPATH="$WT" timeout 900 /venv/bin/python "$SRC/demo.py" >/tmp/wt/demo-$NAME.log 2>&1; DEMO_WITH=$?
+if [ -n "${SKIP_SUITE:-}" ] && [ -f "$OUT/meta.json" ] && cmp -s "$SRC/patch.diff" "$OUT/patch.diff"; then
+  # re-check of an already confirmed, unchanged patch: reuse the suite result
+  TESTS=$(/venv/bin/python -c "import json;print(json.load(open('$OUT/meta.json'))['confirmed']['test_suite_exit_with_patch'])")
+  TESTLINE=$(/venv/bin/python -c "import json;print(json.load(open('$OUT/meta.json'))['confirmed']['test_suite_summary'])")
+else
 PYTHONPATH="$WT" /venv/bin/python -m pytest -q -p no:cacheprovider -n ${NJOBS:-8} tests >/tmp/wt/tests-$NAME.log 2>&1; TESTS=$?
 TESTLINE="$(tail -1 /tmp/wt/tests-$NAME.log)"
+fi
 # run the check against the patched worktree
 ( cd "$HERE" && VERIF_REPO="$WT" PYTHONPATH="$WT" ${TIER_ENV:-} ./check "${CHECK_ID:-$PID}" >/tmp/wt/check-$NAME.log 2>&1 ); CHECK=$?
 git checkout -q -- .
